@@ -14,7 +14,6 @@ import (
 	"verif/internal/ev"
 	"verif/internal/hx"
 	"verif/internal/kf"
-	"verif/internal/memfs"
 )
 
 // ---------------------------------------------------------------------------------------------
@@ -52,6 +51,14 @@ import (
 // Assign may give a key the zero value "". The key is still defined by that call, so the node
 // shows "" for it and not a lower source's value.
 //
+// View: vuego.View(node, file, data) (README, docs/api.md: binds a template file to a data model;
+// the returned template is rendered and discarded) makes a NEW child of the node: the file is
+// loaded and the data filled into the child. Like Load it must leave the node it was made from,
+// and every other node, exactly as they were.
+//
+// Storage: the same files may be spread over the layers of a vuego.OverlayFS (see stores); the
+// engine must see their union.
+//
 // After every operation every live node is observed (Get of each key, and a render: Render for
 // loaded nodes, RenderString for the others) and
 //   - each known key must show the model's value in Get, {{ k }}, {{ k + '' }}, :data-x="k" and
@@ -66,7 +73,7 @@ const nPages = 3
 
 // Op is one step of a history.
 type Op struct {
-	Op   string   `json:"op"`             // new | load | fill | assign | render | get
+	Op   string   `json:"op"`             // new | load | view | fill | assign | render | get (view = vuego.View(node, page, data): a new child, Load + Fill in one call; takes the fields of load and fill)
 	Node int      `json:"node"`           // live node the op is applied to (0 = root); taken modulo the live count
 	Page int      `json:"page,omitempty"` // load: which page
 	Kind string   `json:"kind,omitempty"` // fill: map | struct | ptr | shared (a map object of the case's pool) | nil (untyped nil) | typed-nil-map (map[string]any(nil)) | empty-map
@@ -82,6 +89,7 @@ type CaseB struct {
 	B     []string   `json:"b,omitempty"`     // keys defined in data/b.yml
 	Pages [][]string `json:"pages"`           // keys defined in the front-matter of p0, p1, p2
 	NoCfg bool       `json:"nocfg,omitempty"` // the filesystem has no theme.yml and no data/ directory
+	Store string     `json:"store,omitempty"` // "" one filesystem | an OverlayFS layout, see stores
 	Ext   string     `json:"ext,omitempty"`   // names of the two data files, see dataNames (A = the earlier name, B = the later one)
 	Pool  [][]string `json:"pool,omitempty"`  // keys of each shared caller map (values M<j><key>)
 	Ops   []Op       `json:"ops"`
@@ -128,7 +136,7 @@ func (c CaseB) candidates(k string) []string {
 		switch {
 		case inList(op.Zero, k):
 			// the value is "", not a token
-		case op.Op == "fill" && op.Kind != "shared" && !emptyFill(op.Kind) && inList(op.Keys, k):
+		case (op.Op == "fill" || op.Op == "view") && op.Kind != "shared" && !emptyFill(op.Kind) && inList(op.Keys, k):
 			out = append(out, fmt.Sprintf("F%d%s", i, k))
 		case op.Op == "assign" && op.Key == k:
 			out = append(out, fmt.Sprintf("S%d%s", i, k))
@@ -359,6 +367,14 @@ func describeOp(i int, op Op, node int) string {
 		return fmt.Sprintf("op %d: node%d.New()", i, node)
 	case "load":
 		return fmt.Sprintf("op %d: node%d.Load(p%d.vuego)", i, node, op.Page)
+	case "view":
+		if op.Kind == "shared" {
+			return fmt.Sprintf("op %d: View(node%d, p%d.vuego, shared map #%d)", i, node, op.Page, op.Pool)
+		}
+		if emptyFill(op.Kind) {
+			return fmt.Sprintf("op %d: View(node%d, p%d.vuego, %s)", i, node, op.Page, op.Kind)
+		}
+		return fmt.Sprintf("op %d: View(node%d, p%d.vuego, %s with keys %v)", i, node, op.Page, op.Kind, op.Keys)
 	case "fill":
 		if op.Kind == "shared" {
 			return fmt.Sprintf("op %d: node%d.Fill(shared map #%d)", i, node, op.Pool)
@@ -383,7 +399,10 @@ func checkB(c CaseB) error {
 		return err
 	}
 	body := c.body()
-	fsys := memfs.FromMap(c.files())
+	fsys, err := buildFS(c.files(), c.Store, keysB)
+	if err != nil {
+		return err
+	}
 	m := &modelB{cfg: map[string]string{}}
 	for _, k := range keysB {
 		if c.NoCfg {
@@ -462,6 +481,34 @@ func checkB(c CaseB) error {
 		return out
 	}
 
+	// payload builds the data of a fill / view op and the values it gives (for the model)
+	payload := func(i int, op Op) (any, map[string]string, error) {
+		vs := map[string]string{}
+		if op.Kind == "shared" {
+			if len(pool) == 0 {
+				return nil, nil, fmt.Errorf("malformed case: shared fill without a pool")
+			}
+			j := op.Pool
+			if j < 0 {
+				j = -j
+			}
+			j %= len(pool)
+			for k := range pristine[j] {
+				vs[k] = fmt.Sprintf("M%d%s", j, k)
+			}
+			return pool[j], vs, nil // the same map object every time
+		}
+		for _, k := range op.Keys {
+			if inList(keysB, k) && !emptyFill(op.Kind) {
+				vs[k] = fmt.Sprintf("F%d%s", i, k)
+				if inList(op.Zero, k) {
+					vs[k] = "" // the zero value: the key is still defined by this Fill
+				}
+			}
+		}
+		return fillValue(op.Kind, vs), vs, nil
+	}
+
 	prev := snapshot()
 	if err := against(prev, "before any operation"); err != nil {
 		return err
@@ -493,32 +540,35 @@ func checkB(c CaseB) error {
 			}
 			m.nodes = append(m.nodes, ch)
 			created = true
-		case "fill":
-			vs := map[string]string{}
-			if op.Kind == "shared" {
-				if len(pool) == 0 {
-					return fmt.Errorf("malformed case: shared fill without a pool")
-				}
-				j := op.Pool
-				if j < 0 {
-					j = -j
-				}
-				j %= len(pool)
-				for k := range pristine[j] {
-					vs[k] = fmt.Sprintf("M%d%s", j, k)
-				}
-				t.Fill(pool[j]) // the same map object every time
-			} else {
-				for _, k := range op.Keys {
-					if inList(keysB, k) && !emptyFill(op.Kind) {
-						vs[k] = fmt.Sprintf("F%d%s", i, k)
-						if inList(op.Zero, k) {
-							vs[k] = "" // the zero value: the key is still defined by this Fill
-						}
-					}
-				}
-				t.Fill(fillValue(op.Kind, vs))
+		case "view":
+			pg := op.Page
+			if pg < 0 || pg >= nPages {
+				pg = 0
 			}
+			arg, vs, err := payload(i, op)
+			if err != nil {
+				return err
+			}
+			live = append(live, vuego.View(t, fmt.Sprintf("p%d.vuego", pg), arg))
+			ch := m.child(mn)
+			ch.loaded = true
+			for _, k := range c.pageKeys(pg) {
+				ch.fm[k] = fmt.Sprintf("P%d%s", pg, k)
+			}
+			for k := range ch.call {
+				ch.call[k] = mval{known: false}
+			}
+			for k, v := range vs {
+				ch.call[k] = mval{true, v}
+			}
+			m.nodes = append(m.nodes, ch)
+			created = true
+		case "fill":
+			arg, vs, err := payload(i, op)
+			if err != nil {
+				return err
+			}
+			t.Fill(arg)
 			for k := range mn.call {
 				mn.call[k] = mval{known: false}
 			}
@@ -597,6 +647,7 @@ func genHistory(t *rapid.T, rec *ev.Rec, avoidFM bool) CaseB {
 	c := CaseB{A: genSubset(t, "a-"), B: genSubset(t, "b-")}
 	c.NoCfg = rapid.Bool().Draw(t, "nocfg")
 	c.Ext = rapid.SampledFrom(append([]string{""}, exts...)).Draw(t, "data-file-names")
+	c.Store = rapid.SampledFrom(append([]string{"", ""}, stores...)).Draw(t, "store")
 	if c.NoCfg {
 		c.A, c.B, c.Ext = nil, nil, ""
 	}
@@ -620,9 +671,9 @@ func genHistory(t *rapid.T, rec *ev.Rec, avoidFM bool) CaseB {
 	// and Assigns happen while it is shared
 	mode := rapid.SampledFrom([]string{"mixed", "mixed", "sharing", "sharing", "nofill", "nofill"}).Draw(t, "mode")
 	sharing := mode == "sharing"
-	opKinds := []string{"load", "load", "load", "new", "fill", "fill", "assign", "assign", "assign", "render", "get"}
+	opKinds := []string{"load", "load", "view", "view", "new", "fill", "fill", "assign", "assign", "assign", "render", "get"}
 	if sharing {
-		opKinds = []string{"load", "load", "new", "fill", "fill", "fill", "fill", "assign", "assign", "assign", "render", "get"}
+		opKinds = []string{"load", "view", "new", "fill", "fill", "fill", "fill", "assign", "assign", "assign", "render", "get"}
 	}
 	n := rapid.IntRange(1, 12).Draw(t, "nops")
 	liveN := 1
@@ -693,7 +744,12 @@ func genHistory(t *rapid.T, rec *ev.Rec, avoidFM bool) CaseB {
 			op.Page = rapid.IntRange(0, nPages-1).Draw(t, "page")
 			liveN++
 			pageOf = append(pageOf, op.Page)
-		case "fill":
+		case "fill", "view":
+			if kind == "view" {
+				op.Page = rapid.IntRange(0, nPages-1).Draw(t, "page")
+				liveN++
+				pageOf = append(pageOf, op.Page)
+			}
 			if sharing {
 				op.Kind = "shared"
 			} else {
@@ -758,6 +814,11 @@ func classifyB(c CaseB) (bool, []string) {
 		cls["no-config-files"] = true
 	} else {
 		cls["with-config-files"] = true
+		if c.Store != "" {
+			cls["store=overlay/"+c.Store] = true
+		} else {
+			cls["store=single-fs"] = true
+		}
 		if c.Ext != "" {
 			cls["data-files="+c.Ext] = true
 		} else {
@@ -795,8 +856,21 @@ func classifyB(c CaseB) (bool, []string) {
 	for _, op := range c.Ops {
 		ni := op.Node % len(nodes)
 		switch op.Op {
-		case "new", "load":
-			ch := info{parent: ni, depth: nodes[ni].depth + 1, mutated: nodes[ni].mutated, loaded: op.Op == "load", page: op.Page}
+		case "new", "load", "view":
+			ch := info{parent: ni, depth: nodes[ni].depth + 1, mutated: nodes[ni].mutated, loaded: op.Op != "new", page: op.Page}
+			if op.Op == "view" {
+				cls["view"] = true
+				cls["view-data="+op.Kind] = true
+				ch.mutated = true
+				if len(nodes) >= 2 {
+					cls["view-with-siblings-live"] = true
+				}
+				nt = true
+				if op.Kind == "shared" {
+					ch.shared = op.Pool%max(len(c.Pool), 1) + 1
+				}
+				ch.nofill = emptyFill(op.Kind)
+			}
 			if nodes[ni].mutated {
 				cls["new/load-after-fill/assign"] = true
 				nt = true
